@@ -10,7 +10,7 @@ from harness.props import gridlib as G
 from harness.props.c10 import coord_arrays, count_shared
 
 MAXLIVE = 7
-NONMUT = ('new', 'copy', 'scaled', 'shifted', 'reversed', 'rotated', 'protated', 'as', 'pshifted')
+NONMUT = ('new', 'copy', 'scaled', 'shifted', 'reversed', 'rotated', 'protated', 'as', 'pshifted', 'super', 'sub')
 FROM_IMPL = ('as', 'pshifted', 'pshift')     # results the rational model takes from the implementation (oracle-checked)
 TWO_PI = 2 * np.pi
 
@@ -91,9 +91,135 @@ def gen_pyth_spec(rng):
 
 
 def gen_history(rng, big):
-    if rng.random() < 0.12:
+    r = rng.random()
+    if r < 0.12:
         return gen_pyth_history(rng, big)
+    if r < 0.30:
+        return gen_identity_history(rng, big)
     return gen_history0(rng, big)
+
+
+def canon_polar(spec):
+    """radii positive, angles within (-pi, pi]: a polar grid in canonical form"""
+    if spec['kind'] == 'reg':
+        d, n, z = spec['data']
+        d[0] = abs(d[0]) + 0.125
+        z[0] = abs(z[0]) + 0.25
+        d[1] = min(abs(d[1]), 0.5) or 0.25
+        z[1] = max(min(z[1], 0.5), -3.0)
+        while z[1] + d[1] * (n[1] - 1) > 3.0:
+            d[1] /= 2
+    else:
+        spec['data'][0] = [abs(v) + 0.25 for v in spec['data'][0]]
+        spec['data'][1] = [max(min(v, 3.0), -3.0) for v in spec['data'][1]]
+
+
+SAMPLE_FORMS = ['pyint', 'pyfloat', 'list', 'float64', 'int64']
+IDENT_VECTOR_FORMS = G.VECTOR_FORMS + ['computed', 'intarr']
+
+
+def gen_identity_op(rng, sysm, ndim, kind):
+    """One non-mutating (or in-place) operation whose ARGUMENT is the identity of its group, in one of its
+    spellings.  Returns a list of ops (reversing twice takes two) with `i` to be filled in by the caller."""
+    c = ['scaled:s', 'scaled:v', 'copy', 'rev2', 'assame', 'scale:s', 'scaled:s', 'scaled:v']
+    if sysm == 'c':
+        c += ['shifted:s', 'shifted:v', 'shifted:s', 'shifted:v', 'shift:v']
+        if ndim >= 2:
+            c += ['rotated', 'rotated']
+    else:
+        c += ['protated', 'pshifted', 'protated']
+    if kind == 'reg':
+        c += ['super', 'sub', 'super']
+    o = str(rng.choice(c))
+    if o in ('scaled:s', 'scale:s'):
+        return [[o[:-2], None, ['s', 1.0, str(rng.choice(G.SCALAR_FORMS))]]]
+    if o == 'scaled:v':
+        if sysm == 'p':
+            return [['scaled', None, ['s', 1.0, str(rng.choice(['len1', 'list1', '0d', 'pyint']))]]]
+        return [['scaled', None, ['v', [1.0] * ndim, str(rng.choice(IDENT_VECTOR_FORMS))]]]
+    if o == 'shifted:s':
+        return [['shifted', None, ['s', float(rng.choice([0.0, 0.0, -0.0])), str(rng.choice(G.SCALAR_FORMS))]]]
+    if o in ('shifted:v', 'shift:v'):
+        z = [float(rng.choice([0.0, 0.0, 0.0, -0.0])) for _ in range(ndim)]
+        return [[o[:-2], None, ['v', z, str(rng.choice(IDENT_VECTOR_FORMS))]]]
+    if o == 'rotated':
+        r = {'c': '1', 's': '0', 'turns': int(rng.choice([0, 0, 1, -1, 2]))}
+        if ndim == 3:
+            ax = G.UNIT3[int(rng.integers(0, len(G.UNIT3)))]
+            r['axis'] = [G.fr(Fraction(a)) for a in ax]
+        return [['rotated', None, r]]
+    if o == 'protated':
+        return [['protated', None, {'c': '1', 's': '0'}]]
+    if o == 'pshifted':
+        return [['pshifted', None, ['v', [0.0, 0.0], str(rng.choice(IDENT_VECTOR_FORMS))]]]
+    if o in ('super', 'sub'):
+        return [[o, None, [1] * ndim, str(rng.choice(SAMPLE_FORMS))]]
+    if o == 'rev2':
+        return [['reversed', None], ['reversed', 'last']]
+    return [[o, None]]
+
+
+def gen_identity_history(rng, big):
+    """Identity arguments, every op and spelling: scale by 1 / 1.0 / [1, 1] / np.cos([0, 0]), shift by 0 / -0.0 /
+    zeros, rotation by 0 or whole turns, reversing twice, super/subsampling by 1, as_(own system), copy — each
+    followed by in-place edits of the result OR of the original.  The result must have the same points and
+    weights and be an independent object (never the source itself, never sharing an array with it)."""
+    spec = G.gen_spec(rng, maxn=5 if not big else 9)
+    if spec['sys'] == 'p':
+        canon_polar(spec)
+    if rng.random() < 0.3:
+        if spec['sys'] == 'c':
+            G.make_shared(rng, spec)
+        else:
+            spec['shared'] = True
+    ops = [['new', spec]]
+    meta = [[spec['sys'], spec_ndim(spec), spec['kind']]]
+
+    def add(new_ops, i):
+        for op in new_ops:
+            src = len(meta) - 1 if op[1] == 'last' else i
+            op[1] = src
+            ops.append(op)
+            sysm, ndim, kind = meta[src]
+            if op[0] in ('rotated', 'pshifted'):
+                meta.append(['c', ndim, 'uns'])
+            elif op[0] in NONMUT:
+                meta.append([sysm, ndim, kind])
+            elif op[0] in ('rotate', 'pshift'):
+                meta[src][2] = 'uns'
+                if op[0] == 'rotate':
+                    meta[src][0] = 'c'
+
+    for _ in range(int(rng.integers(1, 4))):
+        if len(meta) >= MAXLIVE - 2:
+            break
+        i = int(rng.integers(0, len(meta)))
+        add(gen_identity_op(rng, *meta[i]), i)
+        # the edit that exposes a result that is not independent: in place, on the result or on the original
+        for _ in range(int(rng.integers(1, 3))):
+            j = int(rng.choice([i, len(meta) - 1, int(rng.integers(0, len(meta)))]))
+            sysm, ndim, kind = meta[j]
+            if sysm == 'p':
+                e = str(rng.choice(['scale', 'reverse', 'protate', 'pshift', 'mat']))
+            else:
+                e = str(rng.choice(['scale', 'shift', 'reverse', 'scale', 'shift', 'mat'] + (['rotate'] if ndim >= 2 else [])))
+            if e == 'scale':
+                a = gen_scale_arg(rng, ndim, sysm == 'p')
+                if a[0] == 's' and a[1] == 1.0:
+                    a[1] = 2.0
+                add([[e, None, a]], j)
+            elif e == 'shift':
+                add([[e, None, ['v', [float(rng.choice([0.5, -1.0, 2.0, 0.125])) for _ in range(ndim)], 'float64']]], j)
+            elif e == 'rotate':
+                add([[e, None, gen_rot(rng, ndim)]], j)
+            elif e == 'protate':
+                cc, ss = G.gen_angle(rng)
+                add([[e, None, {'c': G.fr(cc), 's': G.fr(ss)}]], j)
+            elif e == 'pshift':
+                add([[e, None, ['v', [0.5, -1.0], 'float64']]], j)
+            else:
+                add([[e, None]], j)
+    return {'family': 'history', 'ops': ops, 'identity': True}
 
 
 def gen_pyth_history(rng, big):
@@ -130,18 +256,7 @@ def gen_history0(rng, big):
     maxn = 6 if not big else int(rng.choice([6, 12, 30]))
     spec = G.gen_spec(rng, maxn=maxn)
     if spec['sys'] == 'p':
-        # radii positive, angles within (-pi, pi]: a polar grid in canonical form
-        if spec['kind'] == 'reg':
-            d, n, z = spec['data']
-            d[0] = abs(d[0]) + 0.125
-            z[0] = abs(z[0]) + 0.25
-            d[1] = min(abs(d[1]), 0.5) or 0.25
-            z[1] = max(min(z[1], 0.5), -3.0)
-            while z[1] + d[1] * (n[1] - 1) > 3.0:
-                d[1] /= 2
-        else:
-            spec['data'][0] = [abs(v) + 0.25 for v in spec['data'][0]]
-            spec['data'][1] = [max(min(v, 3.0), -3.0) for v in spec['data'][1]]
+        canon_polar(spec)
     shared = bool(rng.random() < 0.4)        # constructor inputs alias each other / are reused for a second grid
     if shared and spec['sys'] == 'c':
         G.make_shared(rng, spec)
@@ -209,7 +324,21 @@ def gen_history0(rng, big):
 # the real code: histories
 
 def angle_of(r):
-    return math.atan2(float(Fraction(r['s'])), float(Fraction(r['c'])))
+    # `turns`: whole turns added to the angle (rotation by 2*pi*n: the identity map, spelled differently)
+    return math.atan2(float(Fraction(r['s'])), float(Fraction(r['c']))) + TWO_PI * r.get('turns', 0)
+
+
+def sample_arg(k, form):
+    """the factor argument of make_supersampled_grid / make_subsampled_grid in one of its spellings"""
+    if form == 'pyint' and len(set(k)) == 1:
+        return int(k[0])
+    if form == 'pyfloat' and len(set(k)) == 1:
+        return float(k[0])
+    if form == 'list':
+        return [int(v) for v in k]
+    if form == 'float64':
+        return np.array(k, dtype='float64')
+    return np.array([int(v) for v in k])
 
 
 def apply_real(grids, op, pool=None):
@@ -230,6 +359,14 @@ def apply_real(grids, op, pool=None):
                 grids[op[1]].shift(G.op_arg(op[2]))
             elif kind == 'copy':
                 grids.append(grids[op[1]].copy())
+            elif kind in ('super', 'sub'):
+                import hcipy
+                f = hcipy.make_supersampled_grid if kind == 'super' else hcipy.make_subsampled_grid
+                grids.append(f(grids[op[1]], sample_arg(op[2], op[3] if len(op) > 3 else 'int64')))
+            elif kind == 'assame':
+                src = grids[op[1]]
+                if src.as_(src._coordinate_system) is not src:
+                    return 'err:notself'
             elif kind == 'mat':
                 grids[op[1]].weights
             elif kind in ('scale', 'scaled'):
@@ -366,9 +503,11 @@ def run_history(case):
     pool = G.Pool()
     for op in case['ops']:
         before = observe(grids)
+        nbefore = len(grids)
         status = apply_real(grids, op, pool)
         ch = pool.changed()
         steps.append({'op': op, 'status': status, 'before': before, 'after': observe(grids),
+                      'same_obj': [k for k in range(nbefore) if len(grids) > nbefore and grids[-1] is grids[k]],
                       'shared': count_shared([a for g in grids for a in grid_arrays(g)] + list(pool.arrays)),
                       'refvals': [[[float(v) for v in np.asarray(a).ravel()] for a in grid_arrays(g)] for g in grids],
                       'caller_changed': [(list(pool.keys[k])[:6], pool.arrays[k].tolist()[:6]) for k in ch]})
@@ -387,6 +526,10 @@ def model_history_lines(case):
             lines.append(G.new_lines('C11', op[1], mpool))
         elif kind in ('copy', 'mat', 'reverse', 'reversed'):
             lines.append('C11 %s %d' % (kind, op[1]))
+        elif kind in ('super', 'sub'):
+            lines.append('C11 %s %d [%s]' % (kind, op[1], ','.join(str(int(v)) for v in op[2])))
+        elif kind == 'assame':
+            lines.append('C11 same %d' % op[1])
         elif kind in ('scale', 'scaled'):
             a = op[2]
             lines.append('C11 %s %d %s' % (kind, op[1], ('s:' + rat(a[1])) if a[0] == 's' else ('v:' + rat_list(a[1]))))
@@ -511,6 +654,8 @@ def oracle_history(steps):
                 allowed = True          # documented: a one-dimensional grid cannot be rotated
             if name in ('scale', 'scaled', 'mat') and src['sys'] == 'c' and src['kind'] == 'sep' and src['w'] is None and src['getw'][0] == 'err':
                 allowed = True          # automatic weights undefined (axis with fewer than two points)
+            if name in ('super', 'sub') and ((src['kind'] == 'sep' and status == 'err:notimpl') or (src['kind'] == 'uns' and status == 'err:value')):
+                allowed = True          # documented: only regular grids can be resampled
             if not allowed and src is None:
                 bad.append(('new-raises', 'constructing (or reading the points of) a %s %s grid with argument forms %r raised %s' % (
                     op[1]['sys'], op[1]['kind'], op[1].get('forms'), status[4:])))
@@ -520,8 +665,16 @@ def oracle_history(steps):
             if len(after) != len(before) or any(not same_snap(a, b) for a, b in zip(after, before)):
                 bad.append(('failed-op-side-effect', 'a failed %s changed a live grid' % name))
             continue
+        if name == 'assame':
+            if len(after) != len(before) or any(not same_snap(a, b) for a, b in zip(after, before)):
+                bad.append(('alias assame', 'as_(own system) changed a live grid'))
+            continue
         tgt = len(after) - 1 if name in NONMUT else op[1]
         new = after[tgt]
+        if st.get('same_obj'):
+            # "the non-mutating forms return independent copies": whatever the argument — also for the identity
+            bad.append(('alias %s returns-existing-object' % name, '%s%s returned grid %d itself instead of a new grid' % (
+                name, arg_form(op), st['same_obj'][0])))
         # untouched grids
         for k in range(len(before)):
             if name not in NONMUT and k == tgt:
@@ -552,6 +705,26 @@ def oracle_history(steps):
             wantP, wantW = P + factors(op[2], ndim)[None, :], W
         elif name in ('reverse', 'reversed'):
             wantP, wantW = P[::-1], (W[::-1] if W is not None else None)
+        elif name in ('super', 'sub'):
+            # from the definition: every cell is cut into k equal sub-cells (super) / k consecutive cells are merged (sub);
+            # the samples sit at the cell centres
+            if src['kind'] != 'reg':
+                bad.append(('op-accepts %s' % name, '%s%s of a %s grid did not raise (only regular grids can be resampled)' % (name, arg_form(op), src['kind'])))
+                continue
+            d, n, z = src['data']
+            axes = []
+            for dd, nn, zz, k in zip(d, n, z, op[2]):
+                if name == 'super':
+                    axes.append([zz + j * dd - dd / 2 + (m + 0.5) * dd / k for j in range(nn) for m in range(k)])
+                else:
+                    axes.append([float(np.mean([zz + (j * k + m) * dd for m in range(k)])) for j in range(nn // k)])
+            mesh = np.meshgrid(*axes[::-1], indexing='ij')
+            wantP = np.stack([mm.ravel() for mm in mesh[::-1]], axis=1) if all(len(a) for a in axes) else np.zeros((0, len(axes)))
+            wantW = None
+            if new['kind'] != 'reg' or new['sys'] != src['sys']:
+                bad.append(('points %s' % name, '%s of a regular %s grid returned a %s %s grid' % (name, src['sys'], new['sys'], new['kind'])))
+            elif all(k == 1 for k in op[2]) and W is not None and src['w'] is None and new['wl'] is not None and not close_arr(new['wl'], W):
+                bad.append(('weights %s' % name, 'resampling by 1 changed the automatic weights'))
         elif name in ('rotate', 'rotated'):
             wantP, wantW = rot_points(P, op[2]), None
         elif name in ('protate', 'protated'):
@@ -607,14 +780,20 @@ def base(name):
             'pshifted': 'pshift'}.get(name, name)
 
 
+def is_sv(op):
+    return len(op) > 2 and isinstance(op[2], list) and len(op[2]) > 0 and op[2][0] in ('s', 'v')
+
+
 def arg_form(op):
-    if len(op) > 2 and isinstance(op[2], list):
+    if len(op) > 3 and not is_sv(op) and isinstance(op[2], list):
+        return '(factor %r as %s)' % (op[2], op[3])
+    if is_sv(op):
         return '(%s as %s)' % ('scalar' if op[2][0] == 's' else 'vector', op[2][2] if len(op[2]) > 2 else 'default')
     return ''
 
 
 def arg_class(op):
-    if len(op) > 2 and isinstance(op[2], list):
+    if is_sv(op):
         return '(scalar)' if op[2][0] == 's' else '(vector)'
     return ''
 
@@ -1017,6 +1196,12 @@ def run(ctx):
                     ctx.count('aliased-constructor-inputs')
             if case.get('pyth'):
                 ctx.count('histories-pythagorean')
+            if case.get('identity'):
+                ctx.count('histories-identity-arguments')
+                for o in case['ops'][1:len(steps)]:
+                    if o[0] in NONMUT or o[0] == 'assame':
+                        ctx.count('identity:' + o[0] + (':' + str(o[2][2] if len(o[2]) > 2 else '') if len(o) > 2 and isinstance(o[2], list) and o[2] and o[2][0] in ('s', 'v') else
+                                                  ':' + str(o[3]) if len(o) > 3 else ':turns=%d' % o[2].get('turns', 0) if len(o) > 2 and isinstance(o[2], dict) else ''))
             ctx.count('grid:%s-%s-%dD' % (base_spec['sys'], base_spec['kind'], spec_ndim(base_spec)))
             ctx.count('weights:' + ('none' if base_spec['w'] is None else 'array' if isinstance(base_spec['w'], list) else 'scalar'))
             sig = ('history', tuple(o[0] + G_arg(o) for o in case['ops']), base_spec['sys'], base_spec['kind'], spec_ndim(base_spec))
@@ -1117,7 +1302,7 @@ def run(ctx):
 
 
 def G_arg(op):
-    if len(op) > 2 and isinstance(op[2], list):
+    if is_sv(op):
         return ':' + op[2][0]
     if len(op) > 2 and isinstance(op[2], dict):
         return ':3d' if 'axis' in op[2] else ':2d'
